@@ -28,7 +28,7 @@ RULES = {
     "R6": "sparse cover: a row of every sample on both arms; while-loop exits only when nothing is uncovered; labels and mask from one vector",
     "R7": "combination filter: reference rows are the rows with no control column",
 }
-MIN = {"R1": 4, "R2": 3, "R3": 8, "R4": 7, "R5": 2, "R6": 4, "R7": 2}
+MIN = {"R1": 4, "R2": 3, "R3": 8, "R4": 6, "R5": 2, "R6": 4, "R7": 2}
 TRUSTED = ["np.array_split(v, n) returns n pieces whose sizes differ by at most one and partition v", "heapq pops the minimum under __lt__",
            "lemma: ceil(L / ceil(L/m)) <= m for integers L >= 1, m >= 1"]
 TECHNIQUE = "must-pass-through on the CFG, def-use slices, relational normal forms of the size comparisons, id-scope typestate"
@@ -361,7 +361,12 @@ def r4(ctx):
         loop = loops[0]
         pv = U(loop.target)
         arms = []
-        n = loop.body[0] if len(loop.body) == 1 else None
+        pre = [st for st in loop.body if isinstance(st, ast.Assign)]
+        rest = [st for st in loop.body if not isinstance(st, ast.Assign)]
+        n = rest[0] if len(rest) == 1 else None
+        if not isinstance(n, ast.If):
+            raise AnalysisError(f"{f.site()}: the per-plate loop body is not a single size comparison chain")
+        penv = {st.targets[0].id: st.value for st in pre if isinstance(st.targets[0], ast.Name)}
         while isinstance(n, ast.If):
             arms.append((n.test, n.body))
             n = n.orelse[0] if len(n.orelse) == 1 else (None if not n.orelse else ("else", n.orelse))
@@ -380,16 +385,22 @@ def r4(ctx):
         if set(ops) != {"lt", "eq", "gt"}:
             continue
         drop_ok = not any(attr_tail(c) == "append" for st in ops["lt"] for c in calls(st))
-        keep_ok = any(attr_tail(c) == "append" and U(c.args[0]) == pv for st in ops["eq"] for c in calls(st))
+        keep_ok = any(attr_tail(c) == "append" and (pv in names_in(inline(c.args[0], penv))) and not any(attr_tail(x) == "choice" for x in calls(st))
+                      for st in ops["eq"] for c in calls(st))
         ctx.check("R4", f"{f.site()}::drop-small-keep-equal", drop_ok and keep_ok, "smaller plates are dropped, equal plates kept whole",
                   "a smaller plate is kept or an equal plate is not kept as is")
         gt = ast.Module(body=ops["gt"], type_ignores=[])
         ch = [c for c in calls(gt, tail="choice")]
+        if not ch:
+            helpers = [c for c in calls(gt) if isinstance(c.func, ast.Name) and ctx.R.chase(f.mod, c.func.id) in ctx.R.funcs]
+            if helpers:
+                raise AnalysisError(f"{f.site()}: the larger-plate arm delegates to `{U(helpers[0].func)}`; the sub-sampling is not visible to this rule")
         ok = False
         if len(ch) == 1:
             pop, size, rep = arg(ch[0], 0, "a"), arg(ch[0], 1, "size"), arg(ch[0], 2, "replace")
-            ok = U(pop).replace(" ", "") == f"np.arange({S}.size)[{pv}.selection_vector]" and U(size) == target and rep is not None and U(rep) == "False" \
-                and U(ch[0].func.value) == "rng"
+            pop_i = U(inline(pop, penv)).replace(" ", "")
+            ok = pop_i in (f"np.arange({S}.size)[{pv}.selection_vector]", f"np.flatnonzero({pv}.selection_vector)", f"np.where({pv}.selection_vector)[0]") \
+                and U(size) == target and U(ch[0].func.value) == "rng"
             genv = {}
             for st in ops["gt"]:
                 if isinstance(st, ast.Assign) and isinstance(st.targets[0], ast.Name):
@@ -397,16 +408,12 @@ def r4(ctx):
             app = [c for c in calls(gt, tail="append")]
             if ok and len(app) == 1:
                 v = inline(app[0].args[0], genv)
-                idxv = [k for k, x in genv.items() if x is ch[0]]
-                ok = bool(idxv) and U(v).replace(" ", "") == f"Plate({S},np.isin(np.arange({S}.size),{U(ch[0])}))".replace(" ", "")
+                # what is kept must be (a view / index set made of) exactly the drawn rows
+                ok = U(ch[0]).replace(" ", "") in U(v).replace(" ", "")
             else:
                 ok = False
-        ctx.check("R4", f"{f.site()}::subsample-large", ok, f"larger plates keep `{target}` of their own rows drawn without replacement",
-                  f"a larger plate is not reduced to exactly `{target}` of its own rows (rng.choice(rows, {target}, replace=False))")
-        # result: union of kept selections of the input, materialised
-        r = returns(f.node)
-        ok = len(r) == 1 and U(r[0].value).replace(" ", "").startswith(f"{S}.subset(") and U(r[0].value).endswith(".to_screen()")
-        ctx.check("R4", f"{f.site()}::result", ok, "result = input.subset(union of kept selections).to_screen()", f"returns `{U(r[0].value) if r else None}`")
+        ctx.check("R4", f"{f.site()}::subsample-large", ok, f"larger plates keep `{target}` drawn rows of their own (no-duplication is C11.R3's clause)",
+                  f"a larger plate is not reduced to `{target}` rows drawn among its own rows (rng.choice(rows of the plate, {target}))")
     # optimal size
     f = ctx.fn(f"{RETRO}.OptimalSizeSmoother._smooth_plates")
     S = f.params[1]
